@@ -475,6 +475,7 @@ def to_shutdown_acts(obs):
     tx_proc = [False]
     rx_expect = ['read']
     rx_skip = [False]   # the next read of _running by the rx thread is queue_request's (heartbeat), not the loop test
+    io_none = {}        # thread -> it read self.io as None at the start of disconnect()
     rx_made = set()     # entries created by the rx thread itself (heartbeats); its other puts requeue parked requests
 
     def step_of(th, pc=None):
@@ -530,9 +531,11 @@ def to_shutdown_acts(obs):
         elif kind == 'c.shutdown' and ph.get(th) == 'mid':
             dstep(th, 'd2', 'd3')
             ph[th] = 'd2done'
+        elif kind == 'a.get' and e[2] == 'io' and ph.get(th) == 'mid':
+            io_none[th] = e[3] is None
         elif kind == 'a.get' and e[2] == '_txthread' and ph.get(th) in ('mid', 'd2done'):
-            if ph[th] == 'mid':
-                dstep(th, 'd2', 'd3')
+            if ph[th] == 'mid' and io_none.get(th, False):
+                dstep(th, 'd2', 'd3')       # `if io:` was false: nothing to shut down, the step has no visible effect
             dstep(th, 'd3', 'd7' if e[3] is None else 'd4')
             ph[th] = 'join'
         elif kind == 'th.join' and e[2].startswith('txthread'):
